@@ -10,6 +10,7 @@ import (
 	"errors"
 	"fmt"
 	"io"
+	"math"
 	"strings"
 
 	"github.com/hedzr/logg/slog"
@@ -247,13 +248,17 @@ func c19ops(thorough bool) []c19op {
 			})
 		})
 	}
-	for _, n := range []int{-1, 0, 1, 2, -100, -101} { // -100 => Len(), -101 => Len()+1
+	for _, n := range []int{-1, 0, 1, 2, -100, -101, -102, -103} { // -100 => Len(), -101 => Len()+1, -102 => Len()-1, -103 => Len()-4
 		n := n
 		name := fmt.Sprintf("Truncate(%d)", n)
 		if n == -100 {
 			name = "Truncate(Len)"
 		} else if n == -101 {
 			name = "Truncate(Len+1)"
+		} else if n == -102 {
+			name = "Truncate(Len-1)"
+		} else if n == -103 {
+			name = "Truncate(Len-4)"
 		}
 		add(name, func(b bufAPI) string {
 			return guard(func() string {
@@ -262,6 +267,10 @@ func c19ops(thorough bool) []c19op {
 					k = b.Len()
 				} else if n == -101 {
 					k = b.Len() + 1
+				} else if n == -102 {
+					k = b.Len() - 1
+				} else if n == -103 {
+					k = b.Len() - 4
 				}
 				b.Truncate(k)
 				return "ok"
@@ -274,6 +283,13 @@ func c19ops(thorough bool) []c19op {
 			return guard(func() string { b.Grow(n); return "ok" })
 		})
 	}
+	for _, n := range []int{math.MaxInt / 2, 1 << 60, math.MaxInt - 1024} {
+		n := n
+		add(fmt.Sprintf("Grow(%d)", n), func(b bufAPI) string {
+			return guard(func() string { b.Grow(n); return "ok" })
+		})
+	}
+	add("String", func(b bufAPI) string { return guard(func() string { return fmt.Sprintf("%q", b.String()) }) })
 	add("Reset", func(b bufAPI) string { return guard(func() string { b.Reset(); return "ok" }) })
 	// Len/Bytes/String are observed after every step anyway.
 	return ops
@@ -345,7 +361,12 @@ func c19replay(roots []c19root, ops []c19op, cas c19case) (*Violation, string) {
 					s = "observer " + normPanic(p)
 				}
 			}()
-			return fmt.Sprintf("Len=%d String=%q Bytes=%q", b.Len(), b.String(), b.Bytes())
+			if i == len(cas.Ops)-1 {
+				// String() is asked once, after the last step (it is also an operation of its own): an
+				// implementation may not rely on being asked after every change
+				return fmt.Sprintf("Len=%d Bytes=%q String=%q", b.Len(), b.Bytes(), b.String())
+			}
+			return fmt.Sprintf("Len=%d Bytes=%q", b.Len(), b.Bytes())
 		}
 		obsA := ra + " | " + observe(impl)
 		obsB := rb + " | " + observe(ref)
@@ -365,7 +386,23 @@ func c19replay(roots []c19root, ops []c19op, cas c19case) (*Violation, string) {
 				fmt.Sprintf("after %s: PrintCtx -> %.300s ; bytes.Buffer -> %.300s", op.name, obsA, obsB), cc), ""
 		}
 	}
-	return nil, c19key(impl, ref)
+	// the canonical state merges histories with the same buffer tuple. That is only sound while the tuple is
+	// the whole state; to keep an implementation honest that remembers what String() returned, the window
+	// (read offset, length) at the time of the last String() call is part of the key
+	lastString := ""
+	{
+		i2, r2 := roots[cas.Root].mk()
+		for _, oi := range cas.Ops {
+			if ops[oi].name == "String" {
+				lastString = fmt.Sprintf("|S@%d", len(r2.Bytes()))
+			}
+			ops[oi].f(r2)
+			_ = i2
+		}
+		delete(c19keep, i2)
+		delete(c19keep, r2)
+	}
+	return nil, c19key(impl, ref) + lastString
 }
 
 func init() {
